@@ -142,3 +142,46 @@ comp! {
     c07_cw_trunc_to_zero = (0, 2, 0, 0);
     c07_cw_noop = (1, 2, 6, 0);
 }
+
+// ---------------------------------------------------------------------------------------------
+// C13 (import refusal, compressed formats): an import that is refused because the stored header does
+// not match has asked for no other region, written nothing and removed nothing.
+fn c13_region_name(_name: &str, _index: &str) -> String {
+    String::from("v/usize")
+}
+#[kani::proof]
+#[kani::unwind(10)]
+#[kani::stub(alloc::fmt::format, stubs::format_stub)]
+#[kani::stub(rawdb::Database::sync_bg_tasks, rawdb::verif_root::sync_bg_tasks_stub)]
+#[kani::stub(rawdb::Database::remove_region_if_exists, rawdb::verif_root::remove_region_if_exists_stub)]
+#[kani::stub(std::vec::Vec::<T>::with_capacity, stubs::with_capacity_stub)]
+#[kani::stub(std::vec::Vec::<T>::reserve, stubs::reserve_stub)]
+#[kani::stub(<[u8]>::to_vec, stubs::to_vec_stub8)]
+#[kani::stub(crate::base::read_write::vec_region_name, c13_region_name)]
+#[kani::stub(rawdb::Database::create_region_if_needed, rawdb::verif_root::create_region_if_needed_stub)]
+#[kani::stub(rawdb::Database::get_region, rawdb::verif_root::get_region_none_stub)]
+fn c13_comp_import_refused_no_effect() {
+    const CAP: usize = 48;
+    let mut buf: Box<[u8; CAP]> = Box::new(kani::any());
+    let stored_hv: u32 = kani::any();
+    let stored_vv: u32 = kani::any();
+    kani::assume(stored_vv < 1000);
+    buf[0..4].copy_from_slice(&stored_hv.to_le_bytes());
+    buf[4..8].copy_from_slice(&stored_vv.to_le_bytes());
+    // the region currently holds a raw Bytes vector (format byte 0); a compressed import must refuse it
+    buf[20] = 0;
+    // data region: header + 8 bytes; a second, empty region stands for whatever a second request would yield
+    let (db, ra, rb) = rawdb::verif_root::api_contract_db2(buf.as_mut_ptr(), CAP - 8, HEADER_OFFSET + 8, 8, 0);
+    rawdb::verif_root::set_contract_regions(&ra, Some(&rb));
+    let req: u32 = kani::any();
+    kani::assume(req < 1000);
+    rawdb::verif_root::ghost_clear();
+    let opts = crate::ImportOptions::new(&db, "v", Version::new(req));
+    let res = CV::import_with(opts, Format::Pco);
+    assert!(res.is_err(), "a compressed import accepted a raw vector");
+    assert!(rawdb::verif_root::ghost_creates() == 1, "refused import asked for (created) a region besides the vector's own");
+    assert!(rawdb::verif_root::ghost_writes() == 0, "refused import wrote to the region");
+    assert!(rawdb::verif_root::ghost_removals() == 0, "plain import discarded data");
+    kani::cover!(true, "refused");
+    core::mem::forget((res, db, buf));
+}
